@@ -67,6 +67,7 @@ func (x *Exec) verifyFunc(fn *ssa.Function, c *FuncContract) (err error) {
 	}()
 	x.unitFn = fn
 	x.cutArr, x.cutSpec, x.cutDone = map[*ssa.Call][]workItem{}, map[*ssa.Call]*CutSpec{}, map[*ssa.Call]bool{}
+	x.cutFired = map[string]bool{}
 	st := &State{cells: map[*Cell]Value{}, heaps: map[string]string{}, wf: map[string]bool{}, held: map[string]string{}, ghost: map[string]Value{}}
 	x.alloc0 = x.d.constant("alloc0", sInt)
 	st.alloc = x.alloc0
@@ -231,6 +232,13 @@ func (x *Exec) verifyFunc(fn *ssa.Function, c *FuncContract) (err error) {
 	}
 	run := st.clone()
 	outs := x.runFunc(run, fn, args, binds, nil, c, "", fn.Pos())
+	if x.bounded == 0 {
+		for _, cs := range c.Cuts {
+			if !x.cutFired[cs.Callee] && x.firstCallOf(fn, cs.Callee) == nil {
+				specFail("cut %s: the function has no call of that callee", cs.Callee)
+			}
+		}
+	}
 	nret := 0
 	for _, o := range outs {
 		if o.st.infeasible() {
